@@ -82,6 +82,11 @@ func ruleVerConst(w *World, r *Report) {
 		r.Unresolved(rule, "no strconv.ParseInt of a component")
 		return
 	}
+	// components are decimal: base 10, not auto-detected (010 would be octal, 0x1F accepted)
+	if len(parse.Call.Args) == 3 {
+		base, okb := constInt(parse.Call.Args[1])
+		r.Check(okb && base == 10, rule, w.InstrPos(parse), name, "strconv.ParseInt(component, "+describe(parse.Call.Args[1])+", …)", "components are read as decimal numbers", "components are not parsed in base 10: a leading zero switches to octal (1.010.0 sorts below 1.9.0, 08 is rejected) and prefixed literals are accepted")
+	}
 	var acc *ssa.BinOp
 	EachInstr(fn, func(in ssa.Instruction) {
 		bo, ok := in.(*ssa.BinOp)
@@ -469,6 +474,10 @@ func ruleTimeModes(w *World, r *Report) {
 }
 
 var c19Witnesses = []Witness{
+	{Name: "version-components-parsed-with-auto-base", Rule: "R-VERCONST", Edits: []Edit{
+		{File: "operator.go", Old: "			v, err := strconv.ParseInt(arr[i], 10, 64)", New: "			v, err := strconv.ParseInt(arr[i], 0, 64)"}}},
+	{Name: "benign-version-components-parsed-as-int32", Benign: true, Edits: []Edit{
+		{File: "operator.go", Old: "			v, err := strconv.ParseInt(arr[i], 10, 64)", New: "			v, err := strconv.ParseInt(arr[i], 10, 32)"}}},
 	{Name: "component-10000-admitted", Rule: "R-VERCONST", Edits: []Edit{
 		{File: "operator.go", Old: "			if v >= 10000 {", New: "			if v > 10000 {"}}},
 	{Name: "valid-length-up-to-5", Rule: "R-VERCONST", Edits: []Edit{
